@@ -13,6 +13,10 @@ func init() {
 		ID: "C04",
 		Rules: []RuleSpec{
 			{"tx-commit-guard", "the per-transaction DAO layer is persisted only on the non-fault branch, it is the private layer of a context created for that transaction, and OnPersist/PostPersist persist only after a successful Exec", ruleTxCommitGuard},
+			{"unload-rollback", "the unload callback of a wrapped call persists only on commit, cuts notifications back and restores the base DAO layer on every exit; baselines are captured before the callee is loaded; the VM passes commit = no uncaught exception; ContractHasTryBlock scans every handler of every frame", ruleUnloadRollback},
+			{"reset-complete", "every VM field written during execution is re-initialised by VM.Reset (the VM is reused for all transactions of a block)", ruleResetComplete},
+			{"cache-ro", "no write through a native cache obtained with GetROCache (a leaked alias is exactly a trace that survives rollback)", ruleCacheRO},
+			{"cache-copy", "Copy() of every native cache gives a dropped layer nothing to share with the layer below", ruleCacheCopy},
 		},
 		NotCovered: "ContractHasTryBlock optimisation soundness, fee deduction, token arithmetic, nested try/finally state machine",
 	})
@@ -68,6 +72,7 @@ func init() {
 			{"flags-effects", "for every system call and native-method registration the effects of the handler over the module-restricted call graph (contract-storage write, notification, script load) are covered by the declared required flags (legacy superseded registrations and the payment callback tabled)", ruleFlagsEffects},
 			{"native-flag-check", "native.Call and Context.SyscallHandler invoke the handler only behind the Has(RequiredFlags) test; the historical relaxation is confined to pre-Aspidochelone Management deploy/update", ruleFlagChecks},
 			{"call-guards", "safe methods are called with write/notify stripped, a deployed caller passes CanCall before a non-safe call, flags given to the loaders are the intersection with the current context's flags, and no other loader site exists in the execution closure", ruleCallGuards},
+			{"wild-nonnil", "an explicit (possibly empty) method/trust list is never stored as a possibly-nil slice into a wildcard container, for which nil means wildcard", ruleWildNonNil},
 			{"perm-method-check", "every allowing exit of Permission.IsAllowed passes the method-list check, hash/group kinds compare the callee, and switches over the permission kind are exhaustive", rulePermissions},
 		},
 		NotCovered: "ReadStates (several syscalls check it dynamically), Manifest.CanCall matching semantics beyond the method-list clause, group membership data",
